@@ -141,6 +141,10 @@ class World:
         self.idle_hook: Callable[[], bool] | None = None   # called when the network went quiet; True = more in flight
         self.undeliverable: list[Datagram] = []
         self.closed = False
+        # batch: flush() hands all datagrams queued for the same node to it in ONE loop iteration (what endpoints do
+        # that post received datagrams with call_soon, or read several per poll): tasks scheduled by the first
+        # datagram's handler have not run yet when the next one is handled
+        self.batch = False
 
     # -- construction -----------------------------------------------------------------------------
     def add_node(self, name: str, key_index: int, address: tuple | None = None, curve: str = "curve25519") -> Node:
@@ -203,8 +207,17 @@ class World:
         self.loop.settle()
         while True:
             while self.inflight:
-                self.deliver(0)
-                n += 1
+                if self.batch:
+                    dst = tuple(self.inflight[0].dst)
+                    group = [dg for dg in self.inflight if tuple(dg.dst) == dst]
+                    self.inflight[:] = [dg for dg in self.inflight if tuple(dg.dst) != dst]
+                    for dg in group:
+                        self.deliver_datagram(dg, settle=False)
+                        n += 1
+                    self.loop.settle()
+                else:
+                    self.deliver(0)
+                    n += 1
                 if n > max_steps:
                     raise vloop.LoopStuck("network did not go quiet")
             if self.idle_hook is None or not self.idle_hook():
